@@ -263,9 +263,10 @@ def check_properties_file(ctx, relpath, expected, allowed):
         if n not in got or got[n] == "missing":
             ctx.obligation(n, False, "no Print Assumptions block for " + n)
             continue
+        allow_n = allowed.get(n, AX_NONE) if isinstance(allowed, dict) else allowed
         extra = {
             a for a in got[n]
-            if a not in allowed and not a.startswith(PRIMITIVE_PREFIXES)
+            if a not in allow_n and not a.startswith(PRIMITIVE_PREFIXES)
         }
         ctx.obligation(n, not extra, "axioms outside the allow-list: %s" % sorted(extra) if extra else "")
         if n not in txt:
